@@ -55,9 +55,10 @@ def process_signature(app, what, name, obj, options,
     if isinstance(parent, type) and callable(obj):
         try:
             obj = _util.safe_get(obj, object(), type(parent))
-        except TypeError:
+        except (TypeError, ValueError):
             # eg. method descriptors of extension types only bind to
-            # instances of their class
+            # instances of their class; a static method made with
+            # sigtools.modifiers has no parameter left for the instance
             pass
     try:
         forged_sig = specifiers.signature(obj)
